@@ -3,9 +3,18 @@ from harness import kprops, koracle, kbridge
 from harness.kbridge import TRUSTED_EXTRA
 EXTRA_MODULES = kbridge.MODULES['C05']      # this property's bridge modules only (py2lean/SCOPE.md)
 prepare = kbridge.prepare_for('C05')    # regenerates only the generated files this property owns
-ASSUMPTIONS = ['condition trees of depth <= 3 over timeouts, shared events and processes; one environment (the mixed-environment refusal is checked by a direct call)']
+ASSUMPTIONS = ['condition trees of depth <= 3 over timeouts, shared events and processes; one environment (the mixed-environment refusal is checked by a direct call)',
+               'refused mixed-environment conditions (two Environments alive, the run continued afterwards) are judged by the direct oracle only (harness/kenvmix.py); the model has one environment']
 SPEC = [(8, 'cond'), (3, 'chain'), (2, 'decided'), (1, 'outcome'), (1, 'plan:cond'), (1, 'plan:chain')]
 def run(ctx):
+    from harness import kenvmix
+    if ctx.replay:
+        import json
+        j = json.load(open(ctx.replay))
+        if isinstance(j.get('case'), dict) and j['case'].get('probe') == 'env-mix':
+            fails, st = kenvmix.run_probe(j['case'])
+            return {'coverage': {'evaluations': 1, 'distinct_nontrivial': 1, 'rule': 'replayed refused-condition probe', 'samples': [j['case']],
+                                 'refused_condition_probes': st}, 'disagreements': [], 'oracle_failures': fails}
     res = kprops.run_kernel(ctx, 'C05', SPEC, 2000, 60000, attribute=kprops.stop_is_not_the_cause, oracles=[kprops.oracle_time_monotone, koracle.oracle_c05],
                             nontrivial=lambda c, lines: any(' got cv[' in l for l in lines),
                             rule='seeded random script programs; non-trivial = distinct script in which a process received a ConditionValue')
@@ -38,5 +47,11 @@ def run(ctx):
         except ValueError:
             pass
     res['coverage']['environment_mix_shapes_checked'] = nshape + 2
+    if not ctx.replay:
+        # oracle-only cases, counted separately: a refused condition leaves nothing behind (operands untouched, nothing scheduled) and
+        # the run of the environment goes on as if the attempt had never been made (harness/kenvmix.py)
+        fails, cov = kenvmix.probes(ctx)
+        res['oracle_failures'] += fails
+        res['coverage']['refused_condition_probes'] = cov
     res['coverage'].update(kbridge.coverage('C05'))
     return res
